@@ -29,7 +29,9 @@ type linForm struct {
 	c     *big.Int
 }
 
-func newLin() *linForm { return &linForm{coef: map[string]*big.Int{}, atoms: map[string]*Term{}, c: new(big.Int)} }
+func newLin() *linForm {
+	return &linForm{coef: map[string]*big.Int{}, atoms: map[string]*Term{}, c: new(big.Int)}
+}
 
 func (l *linForm) addAtom(t *Term, k *big.Int) {
 	key := t.String()
@@ -172,6 +174,18 @@ func collectGroundReads(t *Term, bound map[string]bool, out *[]groundRead, seen 
 func baseArray(a *Term) *Term {
 	for a.Op == "app" && a.Name == "store" {
 		a = a.Args[0]
+	}
+	// row id of a two-level heap: ignore the stores to (other) rows of the outer heap
+	if a.Op == "app" && a.Name == "select" && len(a.Args) == 2 && (a.Args[0].Sort == SArr2 || a.Args[0].Sort == SAr2B) {
+		o := a.Args[0]
+		changed := false
+		for o.Op == "app" && o.Name == "store" {
+			o = o.Args[0]
+			changed = true
+		}
+		if changed {
+			return &Term{Op: "app", Name: "select", Sort: a.Sort, Args: []*Term{o, a.Args[1]}}
+		}
 	}
 	return a
 }
